@@ -116,6 +116,16 @@ def check_pass(p: dict):
     for s in p["scheduled"]:
         sched.setdefault((s["group"], s["tx"]), []).append((tuple(s["range"]), s["new"] or ""))
 
+    # (0) a rule that raised before its generator was done: what it had yielded so far is part of transactions nobody has seen the end of, so "all together
+    # or not at all" leaves only "not at all" (and they neither count as dropped nor take precedence over the transactions of the other rules)
+    raised = {int(k) for k in (p.get("raised") or {})}
+    if raised:
+        info["rules_that_raised"] = sorted(raised)
+        for key in [k for k in sched if k[0] in raised]:
+            out.append({"kind": "rewrites_of_a_rule_that_raised_were_scheduled", "detail": {"tx": key, "scheduled": sorted(set(sched[key])), "exception": p["raised"].get(str(key[0]))}})
+            del sched[key]
+        txs = {k: v for k, v in txs.items() if k[0] not in raised}
+
     # (1) all or nothing
     for key, rewrites in txs.items():
         got = sched.get(key)
